@@ -10,9 +10,11 @@ class Session:
         self.ctx = ctx
         self.scratch = scratch
         self._progs = {}
+        self.remap = {}          # thorough tier: analyse another configuration in place of 'default'
         self.built, self.included = export.check_unit_coverage(export.REPO)
 
     def prog(self, config='default'):
+        config = self.remap.get(config, config)
         if config not in self._progs:
             outdir = os.path.join(self.scratch, config)
             _, paths = export.export(config, export.REPO, outdir)
